@@ -1,12 +1,17 @@
 #!/bin/bash
-# usage: refactor_test.sh <patch> <props...> : apply a behaviour-preserving refactoring to /repo, run the checks, undo
-patch=$1; shift
-cd /repo && git status --porcelain --untracked-files=no | grep -q . && { echo "repo dirty"; exit 2; }
-git apply "$patch" || { echo "patch does not apply"; exit 2; }
+# usage: refactor_test.sh <patch> <props...>
+# Applies a behaviour-preserving refactoring to a scratch worktree of /repo (never to /repo itself), points the
+# checks at it with VERIF_REPO, expects every check to stay silent (exit 0), removes the worktree.
+patch=$(readlink -f "$1"); shift
+wt=$(mktemp -d -u /tmp/verif-refwt-XXXXXX)
+git -C /repo worktree add -q --detach "$wt" HEAD || exit 2
+trap 'git -C /repo worktree remove --force "$wt" >/dev/null 2>&1; git -C /repo worktree prune' EXIT
+git -C "$wt" apply "$patch" 2>/dev/null || { echo "patch does not apply"; exit 2; }
 cd /verif
+rc=0
 for p in "$@"; do
-  out=$(./vcheck $p --no-evidence --no-determinism 2>&1 | grep -v "^KNOWN")
+  out=$(VERIF_REPO="$wt" ./vcheck $p --no-evidence --no-determinism 2>&1 | grep -v "^KNOWN")
   echo "$p: $(echo "$out" | grep -E "^OK|^VIOLATION|^HARNESS" | head -2 | tr '\n' ' ')"
-  echo "$out" | grep -E "candidate|detail" | head -3 | cut -c1-500
+  echo "$out" | grep -q "^OK" || { rc=1; echo "$out" | grep -E "candidate|detail" | head -3 | cut -c1-500; }
 done
-git -C /repo checkout -- .
+exit $rc
